@@ -949,6 +949,10 @@ class Engine:
                     if force_complete:
                         # force the process to complete at end_time
                         future = min(process_time + process_timestep, end_time)
+                        if future < process_time + process_timestep:
+                            # the interval is cut short: the process
+                            # only simulates the remainder
+                            process_timestep = future - process_time
                     else:
                         future = process_time + process_timestep
                     if self.global_time_precision is not None:
